@@ -98,9 +98,10 @@ class RefAnd:
 class NameStr(AbsVal):
     """The (stripped) input string."""
 
-    def __init__(self, run, stripped=False):
+    def __init__(self, run, stripped=False, lowered=False):
         self.run = run
         self.stripped = stripped
+        self.lowered = lowered
 
     def __repr__(self):
         return "<names>"
@@ -108,7 +109,17 @@ class NameStr(AbsVal):
     def call_method(self, it, name, args, kwargs):
         if name == "strip":
             self.run.strip_arg = args[0] if args else None
-            return NameStr(self.run, True)
+            return NameStr(self.run, True, self.lowered)
+        if name in ("lower", "casefold") and not args:
+            return NameStr(self.run, self.stripped, True)
+        if name == "__contains__" and len(args) == 1 and isinstance(args[0], str) and args[0]:
+            # a question about the whole (not yet generated) text: answered by the decision tape; the stream then
+            # only generates texts consistent with the answer
+            if self.run.chars:
+                raise Unsupported("substring test on the name list after characters were consumed")
+            res = it.fork_bool(("contains", args[0], self.lowered), f"{args[0]!r} in names{'.lower()' if self.lowered else ''}")
+            self.run.facts.append((args[0], self.lowered, res))
+            return res
         if name == "__iter__":
             return CharStream(self.run)
         if name == "__len__":
@@ -154,6 +165,7 @@ class AndRun:
         self.claims = []
         self.mismatch: Optional[dict] = None
         self.strip_arg = None
+        self.facts: List[tuple] = []      # (literal, on lower-cased text, answer) substring facts assumed about the text
 
     def fail(self, cls, msg):
         self.mismatch = {"cls": cls, "message": msg, "input": "".join(self.chars), "pos": self.it.ctx.i}
@@ -204,7 +216,76 @@ class AndRun:
                     out.append((k, "set", len(v.items)))
                 else:
                     out.append((k, type(v).__name__))
-        return (ref.sig(), tuple(out), ref.mark == ref.i, ref.mark - ref.i if ref.i - ref.mark < 3 else "far")
+        mon = []
+        text = "".join(self.chars)
+        for lit, low, res in self.facts:
+            t = text.lower() if low else text
+            k = max((n for n in range(len(lit), 0, -1) if t.endswith(lit[:n])), default=0)
+            mon.append((lit, low, res, lit in t, k))
+        return (ref.sig(), tuple(out), ref.mark == ref.i, ref.mark - ref.i if ref.i - ref.mark < 3 else "far", tuple(mon))
+
+    def consistent(self, text: str, final: bool) -> bool:
+        for lit, low, res in self.facts:
+            t = text.lower() if low else text
+            if not res and lit in t:
+                return False
+            if res and final and lit not in t:
+                return False
+        return True
+
+    def options(self):
+        ref = self.ref
+        last = self.chars[-1] if self.chars else None
+        text = "".join(self.chars)
+        opts = []
+        can_end = bool(self.chars) and last not in WS and ref.depth == 0 and self.consistent(text, True)
+        if can_end:
+            opts.append("END")
+        if len(self.chars) < self.owner.max_len:
+            for c in self.owner.classes:
+                if not self.chars and c in WS:
+                    continue                          # stripped input does not start with whitespace
+                if c == "}" and ref.depth == 0 and not ref.escaped:
+                    continue                          # brace-balanced inputs only
+                if c == "{" and ref.depth >= self.owner.depth_bound and not ref.escaped:
+                    continue
+                if not self.consistent(text + c, False):
+                    continue
+                opts.append(c)
+        return opts
+
+    def continue_reference(self, got):
+        """The code returned without reading (the rest of) the text: its result must be right for every text that is
+        consistent with what it asked about the text."""
+        import copy
+        start = (copy.deepcopy(self.ref), list(self.chars))
+        seen = set()
+        queue = [start]
+        saved_ref, saved_chars = self.ref, self.chars
+        try:
+            while queue:
+                ref, chars = queue.pop(0)
+                self.ref, self.chars = ref, chars
+                for c in self.options():
+                    if c == "END":
+                        want = ref.result()
+                        if got != want:
+                            self.ref, self.chars = saved_ref, chars
+                            return "".join(chars), want
+                        continue
+                    r2 = copy.deepcopy(ref)
+                    r2.feed(c)
+                    ch2 = chars + [c]
+                    maxlit = max([len(f[0]) for f in self.facts] + [1])
+                    key = (r2.sig(), bool(r2.closed), r2.mark == r2.i, "".join(ch2)[-maxlit:].lower())
+                    if key in seen:
+                        continue
+                    seen.add(key)
+                    queue.append((r2, ch2))
+        finally:
+            self.ref = saved_ref
+        self.chars = saved_chars
+        return None
 
     def next_char(self, it: Interp, args):
         if self.ended:
@@ -221,23 +302,9 @@ class AndRun:
             elif first != pref:
                 raise Pruned()
         ref = self.ref
-        last = self.chars[-1] if self.chars else None
-        opts = []
-        can_end = self.chars and last not in WS and ref.depth == 0 and not (ref.escaped and False)
-        if can_end:
-            opts.append("END")
-        for c in self.owner.classes:
-            if not self.chars and c in WS:
-                continue                          # stripped input does not start with whitespace
-            if c == "}" and ref.depth == 0 and not ref.escaped:
-                continue                          # brace-balanced inputs only
-            if c == "{" and ref.depth >= self.owner.depth_bound and not ref.escaped:
-                continue
-            opts.append(c)
-        if len(self.chars) >= self.owner.max_len:
-            opts = ["END"] if can_end else []
-            if not opts:
-                raise Pruned()
+        opts = self.options()
+        if not opts:
+            raise Pruned()
         c = opts[it.ctx.choose(len(opts), "char")]
         if c == "END":
             self.ended = True
@@ -282,9 +349,15 @@ class AndExplorer:
         outcome = "pruned"
         try:
             res = it.call_function(AFunc(self.fi, self.fi.node, self.fi.module), [NameStr(run)], {})
+            got = [tuple(x[1:]) if isinstance(x, tuple) and x and x[0] == "piece" else ((0, None) if isinstance(x, NameStr) else x)
+                   for x in it.iterate(res)] if isinstance(res, (AList, list, tuple)) else res
             if not run.ended:
-                run.fail("progress", "the function returns before the end of the input")
-            got = [tuple(x[1:]) if isinstance(x, tuple) and x and x[0] == "piece" else x for x in it.iterate(res)] if isinstance(res, (AList, list, tuple)) else res
+                if not run.facts:
+                    run.fail("progress", "the function returns before the end of the input")
+                cex = run.continue_reference(got)
+                if cex is not None:
+                    run.fail("split", f"result {got} is returned without scanning the text (after asking {run.facts}); for {cex[0]!r} the separator rule gives {cex[1]}")
+                return {"tape": list(ctx.tape), "alts": ctx.alts, "claims": run.claims, "outcome": "completed", "mismatch": None, "input": "".join(run.chars)}
             want = run.ref.result()
             if got != want:
                 run.fail("split", f"pieces {got}, separator rule gives {want}")
